@@ -24,6 +24,11 @@ func init() {
 				t := e.T
 				cfg := srvCfg{prop: "C08", nConns: t.Range(3, 5), nDialled: t.Draw(2), msgsPer: [2]int{1, 4}, parkPct: 20, answerPct: 90, bigMsgs: true,
 					stallPct: 45, malformed: t.Chance(1, 2), lateConn: true}
+				if t.Chance(1, 2) {
+					// many peers stop reading large answers at the same time
+					cfg = srvCfg{prop: "C08", nConns: 5, nDialled: 1, msgsPer: [2]int{1, 3}, parkPct: 0, answerPct: 100, stallPct: 75, largePct: 75, lazyResume: true}
+					e.Act("many-stalled-large-answers", "")
+				}
 				newSrvWorld(e, cfg).run()
 			}},
 			{Name: "sctp-association", Weight: 1, Bubble: true, Run: func(e *Env) { c19RunX(e, false, nil, true) }},
